@@ -253,6 +253,13 @@ class Aoef:
                     continue
                 call, param = None, None
                 cands = val[1] if val[0] == "or" else (val,)
+                if val[0] == "ite" and {val[2][0], val[3][0]} == {"param", "call"}:
+                    # the statement form of `param or Cls(...)`: `if not param: param = Cls(...)` / `Cls(...) if param is None else param`
+                    prm = val[2] if val[2][0] == "param" else val[3]
+                    absent = val[1] in (("not", prm), ("cmp", "is", prm, ("const", None)))
+                    present = val[1] in (prm, ("cmp", "isnot", prm, ("const", None)))
+                    if (absent and val[3] == prm) or (present and val[2] == prm):
+                        cands = (val[2], val[3])
                 for x in cands:
                     if x[0] == "param":
                         param = x[1]
